@@ -22,7 +22,7 @@ type nativeCase struct {
 	Inputs  map[string]interface{} `json:"inputs"`
 	Params  map[string]int         `json:"params"`
 	Known   map[string]bool        `json:"known"`
-	Scale   int                    `json:"scale,omitempty"` // every symbolic byte string is repeated Scale times (short-read replays)
+	Scale   int                    `json:"scale,omitempty"`  // every symbolic byte string is repeated Scale times (short-read replays)
 	PadTo   int                    `json:"pad_to,omitempty"` // every non-empty symbolic byte string is repeated up to exactly PadTo bytes
 }
 
@@ -44,6 +44,11 @@ func goEnv() []string {
 }
 
 // runNative executes cases for one package through `go test -overlay` against the real code and the real OS.
+// droppedHarnessFiles: virtual paths of harness files that do not compile against the current tree (set by Load).
+var droppedHarnessFiles = map[string]bool{}
+
+var harnessFuncRe = regexp.MustCompile(`(?m)^func (VP_[A-Za-z0-9_]+)\(\)`)
+
 func runNative(repoDir, verDir, pkg string, cases []nativeCase) ([]nativeResult, error) {
 	tmp, err := os.MkdirTemp("", "vpnative")
 	if err != nil {
@@ -56,7 +61,16 @@ func runNative(repoDir, verDir, pkg string, cases []nativeCase) ([]nativeResult,
 	}
 	repl := map[string]string{}
 	i := 0
+	var funcs []string
 	for virt, content := range ov {
+		if droppedHarnessFiles[virt] || filepath.Base(virt) == "zz_map.go" {
+			continue
+		}
+		if filepath.Dir(virt) == filepath.Join(repoDir, pkg) {
+			for _, m := range harnessFuncRe.FindAllSubmatch(content, -1) {
+				funcs = append(funcs, string(m[1]))
+			}
+		}
 		real := filepath.Join(tmp, fmt.Sprintf("ov%d_%s", i, filepath.Base(virt)))
 		i++
 		if err := os.WriteFile(real, content, 0o644); err != nil {
@@ -65,7 +79,12 @@ func runNative(repoDir, verDir, pkg string, cases []nativeCase) ([]nativeResult,
 		repl[virt] = real
 	}
 	pkgName := filepath.Base(pkg)
-	testSrc := fmt.Sprintf("package %s\n\nimport (\n\t\"testing\"\n\t\"%s/internal/zzvp\"\n)\n\nfunc TestVPReplay(t *testing.T) { zzvp.NativeMain(t, vpHarnesses) }\n", pkgName, repoMod)
+	sort.Strings(funcs)
+	table := ""
+	for _, f := range funcs {
+		table += fmt.Sprintf("\t%q: %s,\n", f, f)
+	}
+	testSrc := fmt.Sprintf("package %s\n\nimport (\n\t\"testing\"\n\t\"%s/internal/zzvp\"\n)\n\nvar vpHarnesses = map[string]func(){\n%s}\n\nfunc TestVPReplay(t *testing.T) { zzvp.NativeMain(t, vpHarnesses) }\n", pkgName, repoMod, table)
 	testReal := filepath.Join(tmp, "zz_replay_test.go")
 	os.WriteFile(testReal, []byte(testSrc), 0o644)
 	repl[filepath.Join(repoDir, pkg, "zz_replay_test.go")] = testReal
@@ -172,6 +191,10 @@ func cmdCheck(args []string) int {
 		return 2
 	}
 	loadS := time.Since(t0).Seconds()
+	for _, d := range ld.dropped {
+		droppedHarnessFiles[d] = true
+		fmt.Printf("note: harness file %s does not compile against this tree and was left out (its harnesses are not applicable to it)\n", d)
+	}
 	known := loadKnown(*verDir)
 	cfg := defaultCfg(*tier)
 
@@ -420,9 +443,10 @@ func cmdCheck(args []string) int {
 		"cross_solver":                   map[string]interface{}{"solvers": cfg.Cross, "assertion_vcs_rechecked": crossN, "disagreements": crossDis, "unknown": crossUnk},
 		"paths_reaching_final_assertion": reached, "paths_pruned_infeasible": pruned,
 		"functions_encoded": topFuncs(funcs, 0), "harnesses": harnessRows, "known_findings_hit": knownHit,
-		"exhaustive":  complete && nviol == 0,
-		"explanation": "states = feasible symbolic paths completed; transitions = SSA instructions of /repo interpreted; every obligation is one (check-sat) of pc ∧ ¬assert",
-		"repo_head":   ld.gitHead, "repo_diff_sha256_16": ld.diffSum, "load_s": round1(loadS),
+		"exhaustive":                   complete && nviol == 0,
+		"explanation":                  "states = feasible symbolic paths completed; transitions = SSA instructions of /repo interpreted; every obligation is one (check-sat) of pc ∧ ¬assert",
+		"harness_files_not_applicable": ld.dropped,
+		"repo_head":                    ld.gitHead, "repo_diff_sha256_16": ld.diffSum, "load_s": round1(loadS),
 	}
 	ev.Assumptions = pd.Assumptions
 	if *only == "" {
